@@ -360,3 +360,52 @@ def pickle_rt_concrete(p, m):
     if y._mpf_ != x:
         return False, 'copy.copy: %r -> %r' % (x, y._mpf_)
     return True, ''
+
+
+# ------------------------------------------------------------------------------ conversions of special values have one encoding
+def special_encoding(p):
+    """constructors fed with a zero / infinity / nan in any spelling (Decimal('-0'), '-0.0', -0.0, '0e5', '+inf' ...) store the
+    one canonical encoding of that value.  Concrete inputs run through the interpreter (no symbolic content: this is the table of
+    special encodings, as for the arithmetic special-value tables)."""
+    import decimal
+    L = libmpf()
+    ob = Ob(80)
+    src, text, kind = p['src'], p['text'], p['kind']
+    want = {'zero': FZERO, 'inf': FINF, 'ninf': FNINF, 'nan': FNAN}[kind]
+    if src == 'Decimal':
+        outs = ob.run(L.from_Decimal, [decimal.Decimal(text), 53, 'n'])
+    elif src == 'str':
+        outs = ob.run(L.from_str, [text, 53, 'n'])
+    elif src == 'float':
+        outs = ob.run(L.from_float, [float(text)])
+    elif src == 'convert':
+        mp = _ctx(53)
+        outs = ob.run(mp.convert, [decimal.Decimal(text)])
+        cls = mp.mpf
+
+        def good(v, st):
+            if not isinstance(v, cls):
+                return False
+            h = st.heap.get((id(v), '_mpf_'))
+            return tuple(h[1] if h is not None else v._mpf_) == want
+        return finish(ob, ob.prove(outs, good))
+    else:
+        raise Unsupported(src)
+    return finish(ob, ob.prove(outs, lambda v, st: isinstance(v, tuple) and tuple(v) == want))
+
+
+def special_encoding_concrete(p, m):
+    import decimal
+    L = libmpf()
+    src, text, kind = p['src'], p['text'], p['kind']
+    want = {'zero': FZERO, 'inf': FINF, 'ninf': FNINF, 'nan': FNAN}[kind]
+    if src == 'Decimal':
+        r = L.from_Decimal(decimal.Decimal(text), 53, 'n')
+    elif src == 'str':
+        r = L.from_str(text, 53, 'n')
+    elif src == 'float':
+        r = L.from_float(float(text))
+    else:
+        mp = _ctx(53)
+        r = mp.convert(decimal.Decimal(text))._mpf_
+    return tuple(r) == want, '%s(%r) is stored as %r, the canonical encoding is %r' % (src, text, tuple(r), want)
